@@ -97,6 +97,7 @@ var mutantCatalogue = map[string][]mutant{
 		{Name: "rollback forgets the replaced writes", File: "risc/app.go", Old: "\t\tfor _, overwritten := range ctx.transactionOverwritten[register] {\n\t\t\tif overwritten.sequenceID < sequenceID && (tu.sequenceID >= sequenceID || overwritten.sequenceID > tu.sequenceID) {\n\t\t\t\ttu = overwritten\n\t\t\t}\n\t\t}\n", New: ""},
 	},
 	"C07": {
+		{Name: "ret drain steps only the idle units", File: "proc/mvp6-1/cpu.go", Old: "\t\t\t\t\tif !eu.isEmpty() {\n\t\t\t\t\t\tresp := eu.Cycle", New: "\t\t\t\t\tif eu.isEmpty() {\n\t\t\t\t\t\tresp := eu.Cycle"},
 		{Name: "per-cycle branch flag never lowered", File: "proc/mvp6-1/cu.go", Old: "\tu.pushedBranchInCurrentCycle = false\n", New: ""},
 		{Name: "jump resolution never ends the decode stall", File: "proc/mvp6-1/bu.go", Old: "u.du.notifyBranchResolved()", New: "_ = u"},
 		{Name: "resolved branch leaves the flag raised (6.1)", File: "proc/mvp6-1/bu.go", Old: "u.cu.notifyConditionalBranch()", New: "_ = u"},
